@@ -216,4 +216,47 @@ def band(inp):
         return {"got": gi, "expected": ei, "witness_class": "band:integer-x" + (":fixed" if inp["fixed"] else "")}
 
 
+def gen_profiler_contours(tier, seed):
+    for backend in ("iminuit", "scipy"):
+        yield {"backend": backend, "sigmas": [1.0, 2.0]}
+
+
+@R.oracle("contours_profiler_delivers_the_requested_levels", gen_profiler_contours, obligation="ContoursProfiler.get_contours")
+def profiler_contours(inp):
+    """ContoursProfiler(fit, contour_sigma_values=(n, ...)).get_contours: the n-sigma contour is the curve on which the cost has risen by n^2 (profiled over the other
+    parameters), and it is labelled n sigma / the two-dimensional confidence level 1 - exp(-n^2/2); straight-line fit, so the rise is the exact quadratic form"""
+    k2 = imp("kafe2")
+    x = np.array([0.0, 1.0, 2.0, 3.0, 4.0, 5.0]); y = np.array([0.9, 3.2, 4.8, 7.1, 9.2, 10.8])
+    fit = k2.XYFit([x, y], minimizer=inp["backend"]); fit.add_error("y", 0.4)
+    fit.do_fit()
+    pv, Ci = np.asarray(fit.parameter_values, float), np.linalg.inv(np.asarray(fit.parameter_cov_mat, float))
+    names = list(fit.parameter_names)
+    contours = k2.ContoursProfiler(fit, contour_sigma_values=tuple(inp["sigmas"])).get_contours(names[0], names[1])
+    if len(contours) != len(inp["sigmas"]):
+        return {"got": len(contours), "expected": len(inp["sigmas"]), "witness_class": "profiler:number-of-contours"}
+    for n_, (cl_obj, c) in zip(inp["sigmas"], contours):
+        tag = f"profiler:{inp['backend']}:sigma-{n_:g}"
+        if not np.isclose(c.sigma, n_) or not np.isclose(cl_obj.sigma, n_) or not np.isclose(cl_obj.cl, 1 - np.exp(-0.5 * n_ * n_), rtol=1e-9):
+            return {"got": {"contour.sigma": float(c.sigma), "cl": float(cl_obj.cl)}, "expected": {"sigma": n_, "cl": float(1 - np.exp(-0.5 * n_ * n_))}, "witness_class": tag + ":label"}
+        if c.xy_points is not None:
+            pts = np.asarray(c.xy_points, float)
+            pts = pts.T if pts.shape[0] == 2 and pts.shape[1] != 2 else pts
+            d = pts - pv
+            rise = np.einsum("ki,ij,kj->k", d, Ci, d)
+            if not np.allclose(rise, n_ ** 2, rtol=8e-2):
+                return {"got": [float(rise.min()), float(rise.max())], "expected": n_ ** 2, "witness_class": tag + ":level"}
+        else:
+            gx, gy, gz = np.asarray(c.grid_x, float), np.asarray(c.grid_y, float), np.asarray(c.grid_z, float)
+            Xg, Yg = np.meshgrid(gx, gy)
+            d_ = np.stack([Xg - pv[0], Yg - pv[1]], axis=-1)
+            z_exact = np.sqrt(np.einsum("...i,ij,...j->...", d_, Ci, d_))
+            ok = False
+            for Zx in (gz, gz.T):
+                if Zx.shape == z_exact.shape:
+                    near_ = np.abs(z_exact - n_) < 0.12
+                    ok = ok or (np.sum(near_) >= 8 and float(np.max(np.abs(Zx[near_] - z_exact[near_]))) <= 0.1)
+            if not ok:
+                return {"got": "grid does not hold sqrt(rise) = n on the requested level", "expected": n_, "witness_class": tag + ":level"}
+
+
 sys.exit(R.main())
